@@ -944,8 +944,8 @@ impl Family for FactorFamily {
         let ref_polls = reference.sim.polls;
         let mut nsub = subruns(prop, tier);
         if spec.algo == Algo::Mpqs {
-            // a threaded MPQS call drains a 100 000-item range: expensive, smaller share
-            nsub = nsub.min(10);
+            // a threaded MPQS call drains a 100 000-item range (200 000 steps, 30-100 ms)
+            nsub = nsub.min(16);
         }
         if ref_steps > 20_000 {
             // expensive scenario (deterministic criterion): fewer schedules
@@ -1033,6 +1033,11 @@ impl Family for FactorFamily {
             let mut cfg = gen_sim_cfg(&mut r, ref_steps, workers, !fault_free);
             if spec.algo == Algo::Mpqs && r.chance(0.7) {
                 cfg.claim_policy = ClaimPolicy::InOrder;
+            }
+            if spec.algo == Algo::Mpqs && cfg.stall_prob_store > 0.0 && r.chance(0.5) {
+                // MPQS re-decides completion from flags that any worker may overwrite: hold a worker
+                // between "value computed" and "value published" until the others are done
+                cfg.stall_max_len = 1 << 40;
             }
             if spec.algo == Algo::Mpqs && spec.n.bits() < 64 && tier == Tier::Quick && cfg.claim_policy != ClaimPolicy::InOrder {
                 // remote blocks of a small input sieve very poorly (valid but huge polynomials): a schedule
